@@ -2,10 +2,10 @@
 
 `guarded_map(fn, inputs)` evaluates fn(inputs[i]) for every i in a forked worker process.  Before
 each input the worker records (index, its own process CPU time) in shared memory; the parent polls
-the worker's CPU time (/proc/<pid>/stat utime+stime - CPU time, not wall clock, so machine load
-cannot cause a false alarm) and, when the current input has consumed more than
+the worker's USER CPU time (/proc/<pid>/stat utime - CPU time, not wall clock, and not system time, so
+machine load / memory pressure cannot cause a false alarm) and, when the current input has consumed more than
     B = max(floor, factor x median per-input CPU time of the batch so far)
-it stops the worker, re-checks, kills it, records the input as "did not return" and restarts a
+and is still on that input and still burning user CPU a second later, it stops the worker, re-checks, kills it, records the input as "did not return" and restarts a
 worker on the remaining inputs.  The harness therefore never hangs on a tree, and a call that does
 not return becomes an observation the trace specification can judge.
 
@@ -19,6 +19,7 @@ import ctypes
 import json
 import mmap
 import os
+import resource
 import select
 import signal
 import statistics
@@ -35,14 +36,15 @@ FACTOR = 200.0
 
 
 def _proc_cpu(pid):
-    """utime + stime of pid in seconds, or None when the process is gone."""
+    """user CPU time of pid in seconds, or None when the process is gone."""
     try:
         with open(f"/proc/{pid}/stat", "rb") as fh:
             data = fh.read()
     except OSError:
         return None
     rest = data[data.rfind(b")") + 2:].split()
-    return (int(rest[11]) + int(rest[12])) / _TCK      # fields 14, 15 of the whole line
+    return int(rest[11]) / _TCK      # field 14 of the whole line: utime.  USER time only: system time can spike
+    #                                  under memory pressure / reclaim on a loaded machine, a runaway computation cannot
 
 
 def _child(fn, inputs, order, shm, w):
@@ -54,8 +56,8 @@ def _child(fn, inputs, order, shm, w):
         out = os.fdopen(w, "w", buffering=1 << 16)
         for i in order:
             t0 = time.process_time()
-            struct.pack_into("d", shm, 8, t0)       # start first, index second (the parent reads index first)
-            struct.pack_into("q", shm, 0, i)
+            struct.pack_into("d", shm, 8, resource.getrusage(resource.RUSAGE_SELF).ru_utime)   # same clock as /proc utime
+            struct.pack_into("q", shm, 0, i)        # start first, index second (the parent reads index first)
             res = fn(inputs[i])
             out.write(json.dumps([i, time.process_time() - t0, res]))
             out.write("\n")
@@ -101,6 +103,7 @@ def guarded_map(fn, inputs, floor=FLOOR, factor=FACTOR, max_dnr=6):
             _child(fn, inputs, remaining, shm, w)
         os.close(w)
         killed = None
+        suspect = None
         buf = b""
         last_check = time.monotonic()
 
@@ -136,6 +139,12 @@ def guarded_map(fn, inputs, floor=FLOOR, factor=FACTOR, max_dnr=6):
                     continue
                 b = budget()
                 if cpu - t0 <= b:
+                    continue
+                # over budget: it must STAY on this input and keep burning user CPU (a transient stall does neither)
+                if suspect is None or suspect[0] != idx:
+                    suspect = (idx, cpu, now)
+                    continue
+                if now - suspect[2] < 1.0 or cpu - suspect[1] < 0.5:
                     continue
                 os.kill(pid, signal.SIGSTOP)      # freeze, look again, then decide
                 time.sleep(0.02)
